@@ -242,6 +242,45 @@ pub fn run(r: &Report) {
         );
         r.sample(sub, json!({"input_hex": "3bffffffffffffffff", "display": "-18446744073709551616"}));
     }
+    // ---- a tokenizer that borrows a decoder (Decoder::tokens, Tokenizer::from(&mut d)) or owns one that is not at
+    // position 0 displays exactly the rest of the input, like display() of the remaining bytes
+    {
+        let sub = "mid-stream-display";
+        r.space(sub, true, "all ordered pairs of items <= 2 nodes (12-leaf alphabet): after the first item was skipped through the decoder, `{}` of Decoder::tokens(), Tokenizer::from(&mut decoder) and Tokenizer::from(decoder) equals display() of the remaining bytes", 1);
+        let alpha = Alphabet::full();
+        let small: Vec<Item> = trees_up_to(2, &alpha).into_iter().filter(|i| i.utf8_ok()).collect();
+        let mut n = 0u64;
+        let mut ok = 0u64;
+        for a in &small {
+            for b in &small {
+                let mut bytes = a.to_bytes();
+                let mid = bytes.len();
+                bytes.extend_from_slice(&b.to_bytes());
+                let want = format!("{}", minicbor::display(&bytes[mid..]));
+                let mut d = minicbor::Decoder::new(&bytes);
+                if d.skip().is_err() || d.position() != mid {
+                    continue;
+                }
+                n += 3;
+                let owned = mcx::par::guard(|| format!("{}", minicbor::decode::Tokenizer::from(d.clone())));
+                let via_tokens = mcx::par::guard(|| format!("{}", d.clone().tokens()));
+                let borrowed = mcx::par::guard(|| {
+                    let mut d2 = d.clone();
+                    format!("{}", minicbor::decode::Tokenizer::from(&mut d2))
+                });
+                for (how, got) in [("Tokenizer::from(decoder)", owned), ("decoder.tokens()", via_tokens), ("Tokenizer::from(&mut decoder)", borrowed)] {
+                    if got.as_deref() == Ok(want.as_str()) {
+                        ok += 1;
+                    } else {
+                        r.fail(sub, None, json!({"input_hex": hex(&bytes), "first_item_len": mid, "constructor": how}), format!("displayed {:?}, display() of the remaining bytes is {:?}", got, want));
+                    }
+                }
+            }
+        }
+        r.add(sub, n, ok);
+        r.outcome(sub, "pairs x constructors", n);
+        r.sample(sub, json!({"input_hex": "01820203", "first_item_len": 1, "display": "[2, 3]"}));
+    }
     r.assume("size bound constant: output <= 16 * input length + 512 bytes (the largest legitimate expansion is 11 characters per input byte); work bound 8*len+64 input accesses");
     r.assume("floats are rendered with Rust's `{:e}` of the denoted value (documented: scientific notation); text is shown unescaped between double quotes");
 }
